@@ -77,6 +77,7 @@ M = [
     ("C08-interval-names-inferred", "C08", "skgenome/tabio/picard.py", '        keep_default_na=False,\n        na_values=[""],\n', ''),
     ("C19-int-weights-in-place", "C19", "cnvlib/smoothing.py", "_pad_array(np.asarray(weights, dtype=float), wing)", "_pad_array(weights, wing)"),
     ("C03-int-weights-in-place", "C03", "cnvlib/smoothing.py", "_pad_array(np.asarray(weights, dtype=float), wing)", "_pad_array(weights, wing)"),
+    ("C17-bintest-nan-poison", "C17", "cnvlib/bintest.py", '    p = np.where((cnarr["log2"] == 0) & (cnarr["weight"] == 1), 1.0, p)\n', ''),
     ("C12-annotate-by-label", "C12", "cnvlib/target.py", 'annotation.into_ranges(tgt_arr, "gene", "-").values', 'annotation.into_ranges(tgt_arr, "gene", "-")'),
     # ---- C13
     ("C13-join-le", "C13", "cnvlib/access.py", "if gap < min_gap_size:", "if gap <= min_gap_size:"),
